@@ -125,6 +125,12 @@ func RandScalar(r *rand.Rand, t *SType, hostile bool) string {
 		span := new(big.Int).Sub(hi, lo)
 		v := new(big.Int).Rand(r, span)
 		return v.Add(v, lo).String()
+	case 5:
+		// 64-bit types: the first integers a float64 cannot hold, with 16 and 17 digits
+		if t.Base == "int64" || t.Base == "uint64" {
+			return []string{"9007199254740993", "9007199254740995", "9999999999999999", "10000000000000001", "72057594037927937"}[r.Intn(5)]
+		}
+		fallthrough
 	default:
 		v := int64(r.Intn(200))
 		if lo.Sign() < 0 && r.Intn(2) == 0 {
